@@ -579,6 +579,59 @@ func batchCloseUnlocks(fd *ast.FuncDecl) bool {
 	return false
 }
 
+// mergeIsStrict: in (*Response).Merge of the package in dir, the loop over `results` calls protocol.Result and, when
+// that returns an error, returns it (a `return` with a non-nil second result inside `if err != nil`).
+func mergeIsStrict(dir string) (bool, error) {
+	fset := token.NewFileSet()
+	pkgs, err := parser.ParseDir(fset, dir, func(fi os.FileInfo) bool { return !strings.HasSuffix(fi.Name(), "_test.go") }, 0)
+	if err != nil {
+		return false, err
+	}
+	for _, pkg := range pkgs {
+		for _, f := range pkg.Files {
+			for _, d := range f.Decls {
+				fd, ok := d.(*ast.FuncDecl)
+				if !ok || fd.Name.Name != "Merge" || fd.Body == nil || recvName(fd) != "Response" {
+					continue
+				}
+				strict := false
+				ast.Inspect(fd.Body, func(n ast.Node) bool {
+					rs, ok := n.(*ast.RangeStmt)
+					if !ok {
+						return true
+					}
+					sawResult := false
+					for _, st := range rs.Body.List {
+						if containsCall(st, "Result") {
+							sawResult = true
+						}
+						is, ok := st.(*ast.IfStmt)
+						if !ok || !sawResult {
+							continue
+						}
+						be, ok := is.Cond.(*ast.BinaryExpr)
+						if !ok || be.Op != token.NEQ {
+							continue
+						}
+						if y, ok := be.Y.(*ast.Ident); !ok || y.Name != "nil" {
+							continue
+						}
+						errName := exprString(be.X)
+						for _, inner := range is.Body.List {
+							if r, ok := inner.(*ast.ReturnStmt); ok && len(r.Results) == 2 && exprString(r.Results[1]) == errName {
+								strict = true
+							}
+						}
+					}
+					return true
+				})
+				return strict, nil
+			}
+		}
+	}
+	return false, fmt.Errorf("no (*Response).Merge in %s", dir)
+}
+
 func (x *clx) callOrNested(owner string, c *ast.CallExpr, closures map[string]string, locals map[string]string) (string, error) {
 	if sel, ok := c.Fun.(*ast.SelectorExpr); ok && sel.Sel.Name == "readFrom" {
 		ty, err := x.nestedType(owner, sel.X, locals)
@@ -847,6 +900,20 @@ func extractConnLegacy(repo, root string) error {
 		wf["peekErr"], wf["noProgress"], wf["yield"], wf["take"], wf["leave"], unlockAfter(connFns["do"], "waitResponse", false),
 		unlockAfter(connFns["ApiVersions"], "waitResponse", false), unlockAfter(connFns["ReadBatchWith"], "waitResponse", true),
 		batchCloseUnlocks(connFns["Batch.close"]))
+	// Merge methods of the split requests: the first failed part fails the call
+	b.WriteString("/-- protocol/<api>/(*Response).Merge returns the error of the first failed part from inside its loop over the results -/\n")
+	b.WriteString("def strictMerges : List (String × Bool) := [")
+	for i, api := range []string{"listgroups", "describegroups", "describeconfigs"} {
+		strict, err := mergeIsStrict(filepath.Join(repo, "protocol", api))
+		if err != nil {
+			return fmt.Errorf("untranslated: %v", err)
+		}
+		if i > 0 {
+			b.WriteString(", ")
+		}
+		fmt.Fprintf(&b, "(\"%s\", %v)", api, strict)
+	}
+	b.WriteString("]\n\n")
 	b.WriteString("def callsOf (m : String) : List String := ((calls.find? (·.1 == m)).map (·.2)).getD []\n")
 	b.WriteString("def versionsOf (m : String) : List Nat := ((negotiated.find? (·.1 == m)).map (·.2)).getD []\n")
 	b.WriteString("end KV.Gen.ConnLegacy\n")
